@@ -542,6 +542,13 @@ func normalizeValue(
 		d := v.Interface().(time.Duration)
 		return newString(ctx, opts.meta, d.String()), nil
 	case tRegexp:
+		if !v.CanAddr() {
+			// a Regexp passed by value (e.g. as a map element) is not
+			// addressable: use a copy
+			tmp := reflect.New(tRegexp).Elem()
+			tmp.Set(v)
+			v = tmp
+		}
 		r := v.Addr().Interface().(*regexp.Regexp)
 		return newString(ctx, opts.meta, r.String()), nil
 	}
